@@ -137,7 +137,14 @@ def judge (input impl : String) : String × String × String :=
       let hpBad := match res.get? "hp" with
         | some (.str hp) => hp != s!"{T.length}/err/err"
         | _ => false
-      if hpBad then
+      -- the credential-level holder API: what is presented for a selection by claim names is exactly the selection
+      let clBad := match res.get? "cl" with
+        | some (.str cl) => (match cl.splitOn "/" with | [a, b] => a != b | _ => false)
+        | _ => false
+      if clBad then
+        (modelCol, "CREDENTIAL-LEVEL-SELECTION: presented/selected = " ++
+          (match res.get? "cl" with | some (.str cl) => cl | _ => "?"), "")
+      else if hpBad then
         (modelCol, "HOLDER-PARSE: expected " ++ s!"{T.length}/err/err" ++ ", got " ++
           (match res.get? "hp" with | some (.str hp) => hp | _ => "?"), "")
       else if tamper != .none || (hb ≥ 2 && hb != 8) then
